@@ -31,6 +31,9 @@ type Outcome struct {
 	Inconclusive string
 	// Late events appended after the log was closed.
 	Snaps []map[string][]byte
+	// PointHits: hits per scheduling point; PointSleeps: injected sleeps.
+	PointHits   map[string]int64
+	PointSleeps int64
 }
 
 func terminal(status string) bool {
@@ -108,6 +111,12 @@ func Run(sc *Scenario, hooks *Hooks) *Outcome {
 	}
 	out.Rig = r
 	ctx := context.Background()
+	// always installed (without bounds it only counts the hits)
+	pts := rig.InstallPoints(sc.PointSeed, sc.Points)
+	defer func() {
+		pts.Uninstall()
+		out.PointHits, out.PointSleeps = pts.Stats()
+	}()
 	if hooks != nil && hooks.Build != nil {
 		r.ApplyScripts(sc.Topo)
 		if err := hooks.Build(r, sc); err != nil {
